@@ -14,8 +14,8 @@ O == {0, 1}
 V == {1, 2}
 
 VOps ==
-  {[op |-> n, o |-> o] : n \in {"new_empty", "new_ev", "assign_ev", "visit", "destroy"}, o \in O}
-  \cup {[op |-> n, o |-> o, val |-> x, throw |-> t] : n \in {"new_a", "new_b", "new_c", "assign_a", "assign_b", "assign_c"}, o \in O, x \in V, t \in BOOLEAN}
+  {[op |-> n, o |-> o] : n \in {"new_empty", "new_ev", "assign_ev", "visit", "destroy", "assign_own"}, o \in O}
+  \cup {[op |-> n, o |-> o, val |-> x, throw |-> t] : n \in {"new_a", "new_b", "new_c", "new_t", "assign_a", "assign_b", "assign_c", "assign_t"}, o \in O, x \in V, t \in BOOLEAN}
   \cup {[op |-> n, o |-> o, val |-> x] : n \in {"new_i", "assign_i"}, o \in O, x \in {7}}
   \cup {[op |-> n, o |-> o, val |-> x] : n \in {"new_sub_a", "new_sub_b", "assign_sub_a", "assign_sub_b", "swap_a", "take_a"}, o \in O, x \in {5}}
   \cup {[op |-> n, o |-> o] : n \in {"new_sub_empty", "assign_sub_empty"}, o \in O}
@@ -23,7 +23,7 @@ VOps ==
   \cup {[op |-> n, o |-> o, p |-> p] : n \in {"new_move", "assign_move"}, o \in O, p \in O}
   \cup {[op |-> "become", o |-> o, idx |-> k] : o \in O, k \in {-2, -1, 0, 1, 2, 3}}
 OOps ==
-  {[op |-> n, o |-> o] : n \in {"new_empty", "clear", "take", "destroy"}, o \in O}
+  {[op |-> n, o |-> o] : n \in {"new_empty", "clear", "take", "destroy", "assign_own"}, o \in O}
   \* (throwing element constructors are part of C12's quantifier only: Optional's storage constructor is noexcept)
   \cup {[op |-> n, o |-> o, val |-> x] : n \in {"new_val", "assign_val", "new_rval", "assign_rval"}, o \in O, x \in V}
   \cup {[op |-> n, o |-> o, p |-> p] : n \in {"new_copy", "assign_copy", "new_move", "assign_move"}, o \in O, p \in O}
